@@ -16,6 +16,9 @@ ASSUME_CODEC = [
 ]
 
 
+gen_workers = 1
+
+
 class Result:
     def __init__(self, prop):
         self.prop = prop
@@ -41,7 +44,13 @@ def expand(mism):
 
 def signature(M, scn, m):
     op = scn["plan"][m["i"] - 1] if 0 < m["i"] <= len(scn["plan"]) else {"a": "?"}
-    return {"module": M.name, "ty": scn["ty"], "a": op.get("a"), "syn": op.get("syn"), "reason": m["reason"]}, op
+    syn = op.get("syn")
+    if syn is None and op.get("a") == "DecodeCall":
+        for o in reversed(scn["plan"][:m["i"] - 1]):
+            if o.get("a") == "StartDecode":
+                syn = o.get("syn")
+                break
+    return {"module": M.name, "ty": scn["ty"], "a": op.get("a"), "syn": syn, "reason": m["reason"]}, op
 
 
 def classify(prop, M, scn, m, known_list, events=()):
@@ -169,10 +178,10 @@ def finish(res, tier, seed, level, t0, rule, assumptions, exhaustive=False, extr
 
 
 # ---- codec family -------------------------------------------------------------------------
-def gen_codec(modidx, planset, depth, exact=True, extra_consts=()):
-    consts = ["Mod <- TheMod", "ModIdx = %d" % modidx, 'PlanSet = "%s"' % planset, "Depth = %d" % depth,
+def gen_codec(modidx, planset, depth, exact=True, extra_consts=(), maxcompose=6):
+    consts = ["Mod <- TheMod", "ModIdx = %d" % modidx, 'PlanSet = "%s"' % planset, "Depth = %d" % depth, "MaxCompose = %d" % maxcompose,
               "ByteExact = %s" % ("TRUE" if exact else "FALSE")] + list(extra_consts)
-    return lib.generate("MC_Gen", consts, ["RoundTrip", "WireCanonical", "Export"])
+    return lib.generate("MC_Gen", consts, ["RoundTrip", "WireCanonical", "DecSound", "Export"], workers=gen_workers)
 
 
 def nontrivial(M, scn):
@@ -203,12 +212,17 @@ def check_C02(tier, seed):
                         rule="TLC enumerates every type of spec/Universe.tla x every value of spec/Values.tla; one session = Build + one Encode per syntax; bytes compared with the TLA+ reference encoders (DER, UPER, OER); distinct = distinct (module, type, value)")
 
 
+def check_C05(tier, seed):
+    return codec_family("C05", tier, seed, "split" if tier == "quick" else "chunks",
+                        rule="for every (type, value) of the universe and the restartable binary syntaxes (BER, OER): quick = every 2-chunk split point of the reference encoding (every proper prefix incl. the empty one); thorough = every chunking of encodings up to 6 octets and octet-wise feeding of all; each decoder call is one trace event judged by Codec!DecodeCall")
+
+
 def check_C01(tier, seed):
     return codec_family("C01", tier, seed, "rt" if tier == "quick" else "chain", exact=False,
                         rule="sessions Build, Encode(s), Decode(s), Compare, Encode(DER) for every syntax s (thorough: all ordered pairs of syntaxes as transcoding chains) over every (type, value) of the universe; distinct = distinct (module, type, value)")
 
 
-CHECKS = {"C01": check_C01, "C02": check_C02}
+CHECKS = {"C01": check_C01, "C02": check_C02, "C05": check_C05}
 
 
 def replay(prop, path):
